@@ -512,6 +512,30 @@ def rule5_sections(ctx):
         oks = len(sc) == 1 and same_value(fr, sc[0].args[1], fr.params[0]['id'])
         ctx.ob('C18.5', '%s makes the resumed task the worker\'s current task' % ret, oks,
                'the task may resume on another worker: dr_set_cur_task_(wss, t) with the task handed in', loc=fr.loc)
+    # work is the sum of (end - start) over the intervals: every entry point that opens an interval stamps its start, and the leaf
+    # initialiser computes the length from that stamp
+    for op in ('dr_start_task__', 'dr_return_from_create_task__', 'dr_return_from_wait_tasks__', 'dr_return_from_other__'):
+        fo = ctx.need_fn(m, op)
+        ss = call_sites(fo, 'dr_set_start_info')
+        oks = len(ss) == 1 and fo.ap(ss[0].args[0]).fields[-1:] == [INFO + 'start']
+        if oks:
+            # stamped on every path on which the recorder is active (the call that makes the task current is on the same paths)
+            cur = call_sites(fo, 'dr_set_cur_task_')
+            oks = bool(cur) and all(ss[0] in fo.reachable_from(c_) or fo.dominates_f(ss[0], c_) for c_ in cur) and \
+                not [r for c_ in cur for r in fo.reachable_from(c_, blocked=ss) if r.op == 'ret']
+        ctx.ob('C18.5', '%s stamps the start of the interval it opens' % op, oks,
+               'dr_set_start_info(&t->info.start, ..): the length of the interval, hence the work total, is measured from this stamp', loc=fo.loc)
+    ei = ctx.need_fn(m, 'dr_end_interval_')
+    t1s = [st for st in ei.stores_to(INFO + 't_1')]
+    okl = False
+    for st in t1s:
+        d_ = lib.affine(ei, st.ops[0])
+        pos = [k for k, v_ in d_.items() if v_ == 1 and k != '']
+        neg = [k for k, v_ in d_.items() if v_ == -1 and k != '']
+        if len(pos) == 1 and len(neg) == 1 and len(d_) - ('' in d_) == 2 and d_.get('', 0) == 0:
+            endp = ei.param_named('end_t')
+            okl = (endp is None or pos[0] == endp) and ('start' in lib.expr_str(ei, neg[0]) or ei.param_named('start') in (neg[0],))
+    ctx.ob('C18.5', 'leaf interval: work = end - start', okl, 'dn->info.t_1 = end_t - start.t', loc=ei.loc)
     # Cilk flavour: the create_task interval waits in wss->parent for the procedure it spawns; whoever takes it empties the slot
     sp = ctx.need_fn(m, 'dr_start_cilk_proc__')
     PAR = 'dr_worker_specific_state.parent'
@@ -533,7 +557,7 @@ def rule5_sections(ctx):
     setters = sorted(setters)
     ctx.ob('C18.5', 'pending parent is set only by the Cilk create entry point', setters == ['dr_enter_create_cilk_proc_task__'],
            'who-may-write wss->parent', loc=sp.loc, detail=str(setters))
-    ctx.floor('C18.5', 21)
+    ctx.floor('C18.5', 26)
 
 
 def is_load_of_field(f, ref, field):
@@ -642,6 +666,8 @@ MUTANTS = [
      'edits': [('src/profiler/gen_stat.c', "    for (i = 0; i < nw + 1; i++) {\n      for (j = 0; j < nw + 1; j++) {\n\tlong c = EDGE_COUNTS(k,i,j);", "    for (i = 0; i < nw; i++) {\n      for (j = 0; j < nw; j++) {\n\tlong c = EDGE_COUNTS(k,i,j);")]},
     {'name': 'Cilk procedure start leaves the pending parent in place (seed2 C18/m1)', 'expect': 'C18.5',
      'edits': [(INL, "        dr_start_task__(wss->parent, file, line, worker);\n        wss->parent = 0;\n        return 1;", "        dr_start_task__(wss->parent, file, line, worker);\n        return 1;")]},
+    {'name': 'interval after an other-interval has no start stamp (sweep M0124)', 'expect': 'C18.5',
+     'edits': [(INL, "      /* record an interval just started */\n      dr_set_start_info(&t->info.start, wss->worker, file, line);\n    }\n  }\n\n  /* \n     called when a program ends a task", "    }\n  }\n\n  /* \n     called when a program ends a task")]},
     {'name': 'edge counts of created tasks dropped', 'expect': 'C18.3',
      'edits': [(INL, "            for (k = 0; k < dr_dag_edge_kind_max; k++) {\n              s->info.logical_edge_counts[k] += c->info.logical_edge_counts[k];\n            }\n", "")]},
 ]
